@@ -639,8 +639,13 @@ func (s *Sim) checkPodActions(v *recView) {
 	if nUpd > 1 {
 		s.violate("C14", "C14.multi-update", fmt.Sprint(nUpd), fmt.Sprintf("%d pods taken down for update in one reconcile", nUpd))
 	}
-	// ---- C14 Parallel completeness
-	if !v.ordered && !v.deleting && !v.anyFail && !rec.Crashed && rec.CtlDone && rec.CtlErr == nil {
+	// ---- C14 Parallel completeness ("absent API errors": a reconcile in which no
+	// call and no cache lookup failed owes every creation and deletion, whether or
+	// not it reports an error of its own making)
+	if !v.ordered && !v.deleting && !v.anyFail && len(rec.ListerFaults) == 0 && !rec.Crashed && rec.CtlDone {
+		if rec.CtlErr != nil {
+			s.count("probe.parallel_error_without_failed_call")
+		}
 		created := map[int32]bool{}
 		deleted := map[int32]bool{}
 		for _, a := range acts {
